@@ -14,7 +14,8 @@ GENERIC_KINDS = ['cut', 'flip', 'flip', 'insert', 'delete', 'dup-range',
                  'first64', 'append']
 BER_KINDS = ['retag', 'len+1', 'len-1', 'len0', 'len-indef', 'len-huge',
              'drop-node', 'dup-node', 'swap-nodes', 'inject-eoc',
-             'len-long-form', 'wrap-constructed']
+             'len-long-form', 'wrap-constructed', 'retag-indef',
+             'retag-indef']
 TEXT_KINDS = ['text-delete', 'text-dup', 'text-nest', 'text-swapcase',
               'text-number']
 
@@ -120,15 +121,31 @@ def draw_fault(rng, codec, p_fault=0.7):
     elif codec in ('jer', 'xer'):
         kinds += TEXT_KINDS * 2
 
+    if rng.random() < 0.2:
+        # Two or three recipes applied one after the other.
+        parts = []
+
+        for _ in range(rng.choice([2, 2, 3])):
+            part = {'kind': rng.choice(kinds), 'seed': rng.getrandbits(32)}
+            _fill(part, rng)
+            parts.append(part)
+
+        return {'kind': 'multi', 'parts': parts}
+
     kind = rng.choice(kinds)
     fault = {'kind': kind, 'seed': rng.getrandbits(32)}
+    _fill(fault, rng)
+
+    return fault
+
+
+def _fill(fault, rng):
+    kind = fault['kind']
 
     if kind == 'garbage':
         fault['n'] = rng.choice([0, 1, 2, 3, 8, 64, 512, 4096])
     elif kind == 'flip':
         fault['count'] = rng.choice([1, 1, 1, 2, 3, 8])
-
-    return fault
 
 
 def mutate(data, fault, other=b''):
@@ -142,6 +159,12 @@ def mutate(data, fault, other=b''):
 
     if kind == 'raw':
         return bytes.fromhex(fault['data'])
+
+    if kind == 'multi':
+        for part in fault['parts']:
+            data = mutate(data, part, other)
+
+        return bytes(data)
 
     rng = random.Random(fault.get('seed', 0))
     data = bytearray(data)
@@ -259,6 +282,26 @@ def mutate_ber(data, kind, rng):
                                  + other['tag_len']])
 
         return _rebuild(data, node, new_tag=new_tag)
+    elif kind == 'retag-indef':
+        # Unknown tag AND indefinite length, usually without end-of-contents
+        # octets (an unknown extension addition / alternative that a skipping
+        # decoder has to find the end of).
+        first = data[node['off']]
+        new_tag = encode_tag(rng.choice([0x80, 0xa0, first & 0xe0, 0xc0]),
+                             rng.choice([5, 7, 13, 29, 30, 31, 200]))
+        content = bytes(data[node['content']:node['end']])
+
+        if rng.random() < 0.6:
+            content = content.replace(b'\x00\x00', b'\x00\x01')
+
+        tail = b'\x00\x00' if rng.random() < 0.3 else b''
+        rest = bytes(data[node['end']:])
+
+        if rng.random() < 0.5:
+            rest = rest.replace(b'\x00\x00', b'\x01\x00')
+
+        return bytes(data[:node['off']]) + new_tag + b'\x80' + content \
+            + tail + rest
     elif kind == 'len+1':
         return _rebuild(data, node, new_len_bytes=encode_length(length + 1))
     elif kind == 'len-1':
